@@ -190,9 +190,11 @@ type state struct {
 	nsLabels  map[string]map[string]string // Namespace.Labels
 	profile   map[string]map[string]string // real NamespaceToProfile LabelsToApply
 	eps       map[string]*endpoint
-	valid     bool // NP passes the (hand-mirrored) Kubernetes API validation + defaulting
-	reserved  bool // some label / selector key lies in Calico's reserved label space
-	nonPodK8s bool // a non-pod endpoint carries projectcalico.org/orchestrator=k8s
+	valid     bool     // NP passes the (hand-mirrored) Kubernetes API validation + defaulting
+	reserved  bool     // some label / selector key lies in Calico's reserved label space
+	nonPodK8s bool     // a non-pod endpoint carries projectcalico.org/orchestrator=k8s
+	hist      []string // the np/ns/pod/oth ops of this case (to rebuild it with reserved keys stripped)
+	stripped  *state   // the same case with every reserved label / selector key removed (built on demand)
 }
 
 var conv = conversion.NewConverter()
@@ -735,6 +737,104 @@ func (s *state) classify() {
 }
 
 // ---------------------------------------------------------------------------------------------
+// the same case with Calico's reserved label space removed (for attributing a disagreement)
+
+func claimsK8s(e *endpoint) bool {
+	return e != nil && e.kind == "oth" && e.own["projectcalico.org/orchestrator"] == "k8s"
+}
+
+func stripLabelsTok(t string) string {
+	var out []string
+	for _, kv := range splitL(",", t) {
+		if !reservedKey(strings.SplitN(kv, "=", 2)[0]) {
+			out = append(out, kv)
+		}
+	}
+	if len(out) == 0 {
+		return "_"
+	}
+	return strings.Join(out, ",")
+}
+
+func stripSelTok(t string) string {
+	if t == "~" {
+		return t
+	}
+	p := strings.Split(t, ";")
+	var me []string
+	for _, e := range splitL(",", p[1]) {
+		if !reservedKey(strings.Split(e, ":")[0]) {
+			me = append(me, e)
+		}
+	}
+	mes := "_"
+	if len(me) > 0 {
+		mes = strings.Join(me, ",")
+	}
+	return stripLabelsTok(p[0]) + ";" + mes
+}
+
+func stripRulesTok(t string) string {
+	if t == "_" {
+		return t
+	}
+	var rules []string
+	for _, r := range strings.Split(t, "|") {
+		p := strings.Split(r, "@")
+		var peers []string
+		for _, pe := range splitL("&", p[0]) {
+			if pe[0] == 'P' {
+				q := strings.Split(pe[1:], "^")
+				pe = "P" + stripSelTok(q[0]) + "^" + stripSelTok(q[1])
+			}
+			peers = append(peers, pe)
+		}
+		ps := "_"
+		if len(peers) > 0 {
+			ps = strings.Join(peers, "&")
+		}
+		rules = append(rules, ps+"@"+p[1])
+	}
+	return strings.Join(rules, "|")
+}
+
+func stripOp(op string) string {
+	w := strings.Fields(op)
+	switch w[0] {
+	case "np":
+		w[2], w[4], w[5] = stripSelTok(w[2]), stripRulesTok(w[4]), stripRulesTok(w[5])
+	case "ns":
+		w[2] = stripLabelsTok(w[2])
+	case "pod":
+		w[3] = stripLabelsTok(w[3])
+	}
+	return strings.Join(w, " ")
+}
+
+// agreesWhenStripped rebuilds the case without reserved keys (through the REAL conversions again)
+// and reports whether Kubernetes and Calico agree on this connection there.
+func (s *state) agreesWhenStripped(connOp string) bool {
+	if s.stripped == nil {
+		t := &state{}
+		for _, op := range s.hist {
+			if out := exec(nil, t, stripOp(op)); strings.HasPrefix(out, "err") || out == "bad-op" {
+				return false
+			}
+		}
+		s.stripped = t
+	}
+	t := s.stripped
+	w := strings.Fields(connOp)
+	pr, _ := strconv.Atoi(w[4])
+	po, _ := strconv.Atoi(w[5])
+	c := conn{src: t.party(w[2]), dst: t.party(w[3]), proto: pr, dport: po}
+	if c.src == nil || c.dst == nil {
+		return false
+	}
+	return t.calicoVerdict(w[1] == "in", c) == t.k8sVerdict(w[1] == "in", c)
+}
+
+// ---------------------------------------------------------------------------------------------
 // exec: one op on the REAL code
 
 func parseIP(s string) net.IP {
@@ -755,9 +855,14 @@ func exec(h *rt.H, s *state, op string) string {
 	if w[0] != "np" && w[0] != "simp" && s.np == nil {
 		return "bad-op" // (only in shrunk replays) no policy yet
 	}
+	if w[0] == "ns" || w[0] == "pod" || w[0] == "oth" {
+		s.hist = append(s.hist, op)
+		s.stripped = nil
+	}
 	switch w[0] {
 	case "np":
 		*s = state{nsLabels: map[string]map[string]string{}, profile: map[string]map[string]string{}, eps: map[string]*endpoint{}}
+		s.hist = []string{op}
 		np := &networkingv1.NetworkPolicy{ObjectMeta: metav1.ObjectMeta{Name: "np", Namespace: w[1]}}
 		np.Spec.PodSelector = *parseSel(w[2])
 		for _, t := range splitL(",", w[3]) {
@@ -787,8 +892,10 @@ func exec(h *rt.H, s *state, op string) string {
 					badEg++
 				}
 			}
-			h.Count("np:conversion-error")
-			if s.valid {
+			if h != nil {
+				h.Count("np:conversion-error")
+			}
+			if s.valid && h != nil {
 				h.OracleFail("valid-np-rule-dropped", "a NetworkPolicy that passes Kubernetes validation lost a rule in conversion", op)
 			}
 		}
@@ -875,10 +982,14 @@ func exec(h *rt.H, s *state, op string) string {
 		switch {
 		case !s.valid:
 			h.Count("conn:np-not-valid(no-oracle)")
-		case s.nonPodK8s:
+		case claimsK8s(c.src) || claimsK8s(c.dst):
+			// outside the property's quantifier: a party is a NON-pod endpoint that claims to be a k8s workload
 			h.Count("conn:non-pod-claims-k8s(no-oracle)")
-		case cv != kv && s.reserved:
-			h.OracleFail("reserved-label-space", "Kubernetes and converted-Calico verdicts differ because a label/selector key lies in Calico's reserved label space (projectcalico.org/*, pcns.*, pcsa.*)",
+		case cv != kv && s.reserved && s.agreesWhenStripped(op):
+			// attributed PER CONNECTION: the very same connection is re-evaluated in the same case with
+			// every reserved label / selector key removed; only if the disagreement vanishes there is it
+			// the known reserved-label-space limitation
+			h.OracleFail("reserved-label-space", "Kubernetes and converted-Calico verdicts differ because a label/selector key lies in Calico's reserved label space (projectcalico.org/*, pcns.*, pcsa.*); they agree once those keys are removed",
 				map[string]any{"np": s.npOp(), "conn": op, "calico": cv, "k8s": kv})
 		case cv != kv:
 			h.OracleFail("verdict-mismatch", "converted Calico policy and Kubernetes NetworkPolicy disagree on a connection",
